@@ -1,4 +1,5 @@
 import MechVerif.Driver.C20
+import MechVerif.Driver.C07
 open MechVerif.Driver
 
 def dispatch (line : String) : String :=
@@ -6,6 +7,7 @@ def dispatch (line : String) : String :=
   let (m, v, r) :=
     match fields.head? with
     | some "include" => runC20 fields obs
+    | some "crc" | some "dmg" | some "sweep" | some "rt" | some "instrs" => runC07 fields obs
     | _ => ("bad-proto", "bad-proto", "-")
   m ++ "\t" ++ v ++ "\t" ++ r
 
